@@ -154,6 +154,8 @@ def run(chk):
     tables = extract_tables(e, chk)
     if tables is None:
         return
+    from .C04 import reversing_checker_obligations
+    reversing_checker_obligations(chk, e, tables, tag="widening-through-reflection:")
     for cls, meth in (("nat", "__int__"), ("nat", "__float__"), ("int", "__float__")):
         e.func_info(NUM, f"{cls}.{meth}")
     x = z3.BitVec("x0", 64)
